@@ -326,3 +326,60 @@ wc_harness!(c11_late_already_in_chain, store_triggered_step(Pre::Fresh, true, Ou
 // (the shape `row exists + cache hit + no tracker` was reachable before the F15 fix and made store_appointment().unwrap()
 // panic; after the fix every processed dispute leaves a tracker or no row, which c11_late_already_in_chain and
 // c01_late_* assert, so that pre-state is excluded as unreachable)
+
+/// C01.P4e: late appointment whose penalty is already confirmed in one of the last blocks the responder indexes: the
+/// response is recorded as ConfirmedIn(that block's height), nothing is sent, the appointment is kept with its tracker.
+fn late_confirmed_step() {
+    let w = concrete_watcher(false, true);
+    let tip = crate::responder::verif_harness::havoc_responder(&w.responder);
+    let uuid0 = the_uuid(0);
+    let ext = ExtendedAppointment::new(appointment_with_blob(DISPUTE as u8, 3, 1, DISPUTE as u8, 5), user(0), sig_of(b'u'), 4);
+    let dispute = tx(DISPUTE);
+    let r = w.store_triggered_appointment(uuid0, &ext, user(0), &dispute);
+    let dbm = w.dbm.lock().unwrap();
+    assert!(r == TriggeredAppointment::Accepted, "C01.late: a penalty that is already confirmed counts as responded");
+    assert!(unsafe { node::N_SENT } == 0, "C02: nothing is sent for a penalty that is already confirmed");
+    assert!(dbm.verif_app_row(uuid0).is_some(), "C01.late: the appointment is kept");
+    assert!(dbm.verif_tracker_row(uuid0).map_or(false, |t| t.dispute == DISPUTE && t.penalty == DISPUTE + 100
+        && t.status == ConfirmationStatus::ConfirmedIn(tip) && uid(&t.user_id) == 0),
+        "C01.late: from then on the appointment is a tracker with exactly that dispute and penalty, confirmed at the block's true height");
+    kani::cover!(true, "reach");
+    drop(dbm);
+    std::mem::forget(w);
+}
+wc_harness!(c01_late_penalty_confirmed, late_confirmed_step());
+
+/// C01.P2 / C06: one breached locator shared by two users (user 0: blob decrypts, user 1: garbled blob): each appointment
+/// is decrypted on its own; user 0 gets a tracker with *its* penalty, user 1's appointment (only) is reported invalid.
+fn handle_breaches_step() {
+    let w = concrete_watcher(false, false);
+    let ch: u32 = kani::any();
+    w.responder.verif_set_carrier_height(ch);
+    {
+        let dbm = w.dbm.lock().unwrap();
+        dbm.verif_push_appointment(the_uuid(1), ExtendedAppointment::new(appointment_with_blob(DISPUTE as u8, 7, 8, 8, 6), user(1), sig_of(b'p'), 2));
+        dbm.verif_push_appointment(the_uuid(0), ExtendedAppointment::new(appointment_with_blob(DISPUTE as u8, 7, 1, DISPUTE as u8, 5), user(0), sig_of(b'o'), 3));
+    }
+    unsafe {
+        node::SCRIPT = Some(Outcome::Ok);
+        node::QUERY_SCRIPT = Some(Outcome::Rpc(-5));
+    }
+    let mut breaches: VMap<Locator, Transaction> = VMap::new();
+    breaches.insert(locator_of_tx(DISPUTE), tx(DISPUTE));
+    let invalid = w.handle_breaches(breaches);
+    let dbm = w.dbm.lock().unwrap();
+    assert!(unsafe { DECRYPT_CALLS } == 2, "C01.breach: every appointment under the breached locator is decrypted on its own");
+    assert!(unsafe { node::N_SENT } == 1 && unsafe { node::SENT[0] }.map(|t| AsRef::<[u8; 32]>::as_ref(&t)[0]) == Some((DISPUTE + 100) as u8),
+        "C01.breach: the decrypted penalty (and nothing for the garbled blob) is submitted while the block is handled");
+    assert!(dbm.verif_tracker_row(the_uuid(0)).map_or(false, |t| t.dispute == DISPUTE && t.penalty == DISPUTE + 100
+        && t.status == ConfirmationStatus::InMempoolSince(ch) && uid(&t.user_id) == 0),
+        "C01.breach: the accepted appointment becomes a tracker with exactly that dispute and penalty, owned by its user");
+    assert!(dbm.verif_tracker_row(the_uuid(1)).is_none(), "C06.isolation: the other user's garbled appointment gets no tracker");
+    assert!(invalid.as_ref().map_or(false, |v| v.len() == 1 && v[0] == the_uuid(1)),
+        "C01.breach: only the appointment that does not decrypt is reported for deletion");
+    kani::cover!(true, "reach");
+    drop(dbm);
+    std::mem::forget(invalid);
+    std::mem::forget(w);
+}
+wc_harness!(c01_p2_handle_breaches_shared_locator, handle_breaches_step());
